@@ -671,7 +671,8 @@ class LineWorld:
                 pos += ['end', 'mid']
             pos = [p for p in pos if p in self.positions]
             labels += self._op_labels(pos)
-        if self.splits_left > 0 and tg and tg[0].time > env.now and tg[0].event_type != EventType.TERMINATE:
+        if self.splits_left > 0 and tg and tg[0].time > env.now:
+            # (also when only the horizon's TERMINATE is left: the model has gone quiet)
             # the run may end here: strictly between two instants, or as the last thing of the current instant
             labels.append(('split', 'mid'))
             if env.now > 0 or self.steps > 0:
@@ -717,11 +718,13 @@ class LineWorld:
                 return
             if label[0] == 'split':
                 head = self._head_for_ops()
-                if head is None or not head.time > env.now:
+                # nothing but TERMINATE left: the model has gone quiet, the next "event" is the end of the horizon
+                nxt = min(head.time, self.horizon) if head is not None else self.horizon
+                if not nxt > env.now:
                     raise HarnessError('split not enabled')
                 for m in self.monitors:
                     m.presplit(self)
-                t = (env.now + head.time) / 2 if label[1] == 'mid' else env.now
+                t = (env.now + nxt) / 2 if label[1] == 'mid' else env.now
                 if self.mode == 'e1':
                     env.schedule_event(t, -1, env._terminate, EventType.TERMINATE)
                 ev = env._events[0]
@@ -1006,7 +1009,10 @@ def run_e2(spec, monitor_factory, path, prefix_ok=False, trace=False):
                             v.mc_steps = state['n']
                             raise
                     if w.env.now != t_end:
-                        raise HarnessError(f'replay: run {k} ended at {w.env.now}, expected {t_end}')
+                        v = Violation('run_end', f'simulate({t_end - t_prev}) started at t={t_prev} returned with the clock at '
+                                                 f'{w.env.now}, expected {t_end} (run {k + 1} of {len(ends)})')
+                        v.mc_steps = state['n']
+                        raise v
                     t_prev = t_end
                     if k == len(ends) - 1:
                         break
